@@ -375,18 +375,25 @@ def predictions(case, kpaths, seed, n):
         if chosen is None: continue
         out = {}
         rd = Reader(chosen.dom)
+        hm = None
+        if getattr(chosen.dom, 'hyp', None) and dom_name == 'real':
+            # purified quotients / roots / named intermediates: after substituting the inputs their defining equations are
+            # solved (in order) by z3, which gives the values of the purification variables for this input
+            hs = z3.Solver(); hs.set('timeout', 20000)
+            hs.add([eval_term(h, subs) for h in chosen.dom.hyp])
+            if hs.check() == z3.sat: hm = hs.model()
         for a in case.args:
             if isinstance(a, Scal) or a.role == 'in': continue
             vals = []
             for i in range(a.n):
                 v = rd.elem(chosen.bufs[a.name], a, i)
-                vals.append(conc_value(v, a, subs, chosen.dom))
+                vals.append(conc_value(v, a, subs, chosen.dom, hm))
             out[a.name] = vals
         preds.append({'inp': {k_: (v.hex() if isinstance(v, bytes) else v) for k_, v in inp.items()}, 'out': out, 'status': chosen.status})
     return preds
 
 
-def conc_value(v, a, subs, dom):
+def conc_value(v, a, subs, dom, hm=None):
     """concrete value of an output element: ('b', int bits) | ('r', 'p/q') | None"""
     if isinstance(v, Undef): return ['u']
     if isinstance(v, CondVal): return None
@@ -398,8 +405,12 @@ def conc_value(v, a, subs, dom):
                 if z3.is_rational_value(n_) and z3.is_rational_value(d_) and d_.as_fraction() != 0: return ['r', str(n_.as_fraction() / d_.as_fraction())]
                 return None
             e = eval_term(f.r, subs)
-            # purified variables cannot be evaluated by substitution
-            return ['r', str(e.as_fraction())] if z3.is_rational_value(e) else None
+            if z3.is_rational_value(e): return ['r', str(e.as_fraction())]
+            if hm is not None:
+                e2 = hm.eval(e, model_completion=True)
+                if z3.is_rational_value(e2): return ['r', str(e2.as_fraction())]
+                if z3.is_algebraic_value(e2): return ['r', str(e2.approx(30).as_fraction())]
+            return None
         b = f.bits()
         if isinstance(b, int): return ['b', b]
         e = eval_term(b, subs)
